@@ -5,7 +5,7 @@
    the log one request at a time ([seq_run]) — under two named hypotheses about the handlers:
      [Hindep]   (isolation, C12) the writes a batchable command on another primary key produces never
                 change what a batchable command reads;
-     [Hnoabort] no batchable command fails with an error that needs an abort.
+     [Hnoabort] no batchable command that passed isValidBatchableWrite fails with an error that needs an abort.
    [Hindep] is derived from read-set / write-set disjointness in [indep_from_rw_sets].
    Without [Hnoabort] the statement is false of the model: [batch_equiv_refuted] (Properties/C07.v). *)
 From Coq Require Import List NArith Bool Permutation Lia.
@@ -96,7 +96,7 @@ Section Equiv.
   Hypothesis Hindep : forall q q' s' ws r s,
     name_batchable q = true -> name_batchable q' = true -> rpk q <> rpk q' ->
     handler q' s' = Ok ws r -> handler q (commit_ws s ws) = handler q s.
-  Hypothesis Hnoabort : forall q s e, name_batchable q = true -> handler q s <> Fail e true.
+  Hypothesis Hnoabort : forall q s e, name_batchable q = true -> rvalid q = true -> handler q s <> Fail e true.
 
   (* the pending write batch is made of writes of batchable commands whose primary keys are in dupCheckMap *)
   Inductive wb_ok : list bytes -> list W -> Prop :=
@@ -166,8 +166,9 @@ Section Equiv.
     destruct (rkind q) eqn:K.
     - (* redis *)
       destruct (rnargs q <? 2); [exact I|]. simpl andb. cbv iota.
-      destruct (is_batchable st q) eqn:B.
-      + (* joins (or opens) the batch: the handler reads the committed store, which lacks the pending writes *)
+      destruct (is_batchable st q && rvalid q) eqn:B0.
+      + apply andb_true_iff in B0 as [B Hv].
+        (* joins (or opens) the batch: the handler reads the committed store, which lacks the pending writes *)
         destruct (is_batchable_true _ _ B) as [Hb Hn].
         destruct HI as [Hs Ho Hw Hi].
         assert (Hh : handler q sseq = handler q s) by (subst sseq; eapply indep_wb; eauto).
@@ -182,7 +183,7 @@ Section Equiv.
           -- rewrite D1, W1. eapply wb_snoc with (q' := q); eauto; [|now left].
              eapply wb_ok_mono; eauto. intros x Hx. now right.
           -- intros Hf; congruence.
-        * destruct ab; [exfalso; eapply Hnoabort; eauto|].
+        * destruct ab; [exfalso; eapply (Hnoabort q s e); eauto|].
           rewrite Bt1. simpl. constructor; simpl.
           -- now rewrite W1.
           -- rewrite P1. now apply perm_insert.
@@ -422,9 +423,9 @@ End RWSets.
 Definition ex_set : bytes := [115; 101; 116].
 Definition ex_setex : bytes := [115; 101; 116; 101; 120].
 Definition ex_log : list req :=
-  [ mkReq 0 KRedis ex_set [1] 3 0;          (* set k1 v      : succeeds *)
-    mkReq 1 KRedis ex_setex [2] 4 (4 * 7 + 1) ].  (* setex k2 0 v  : handler error 7, needs abort *)
-Definition ex_together : list (list call) := [[mkCall false [nth 0 ex_log (mkReq 0 KGarbage [] [] 0 0)]; mkCall false [nth 1 ex_log (mkReq 0 KGarbage [] [] 0 0)]]].
+  [ mkReq 0 KRedis ex_set [1] 3 0 true;          (* set k1 v      : succeeds *)
+    mkReq 1 KRedis ex_setex [2] 4 (4 * 7 + 1) true ].  (* a setex that passes the pre-check but whose handler fails (error 7, needs abort) *)
+Definition ex_together : list (list call) := [[mkCall false [nth 0 ex_log (mkReq 0 KGarbage [] [] 0 0 true)]; mkCall false [nth 1 ex_log (mkReq 0 KGarbage [] [] 0 0 true)]]].
 
 Lemma batch_equiv_refuted_journal :
   exists p, match run_trace p, run_trace (singletons (flatten p)) with
@@ -454,5 +455,5 @@ Proof.
   apply bytes_eqb_eq in E. congruence.
 Qed.
 
-Lemma thandler_noabort : forall q s e, name_batchable q = true -> thandler q s <> Fail e true.
+Lemma thandler_noabort : forall q s e, name_batchable q = true -> rvalid q = true -> thandler q s <> Fail e true.
 Proof. intros. unfold thandler. discriminate. Qed.
